@@ -145,7 +145,10 @@ impl Authorizer {
     {
         let execution_time = self.run()?;
         let mut limits = self.limits.clone();
-        limits.max_iterations -= self.world.iterations;
+        limits.max_iterations = limits
+            .max_iterations
+            .checked_sub(self.world.iterations)
+            .ok_or(error::Token::RunLimit(error::RunLimit::TooManyIterations))?;
         if execution_time >= limits.max_time {
             return Err(error::Token::RunLimit(error::RunLimit::Timeout));
         }
@@ -269,7 +272,10 @@ impl Authorizer {
     {
         let execution_time = self.run()?;
         let mut limits = self.limits.clone();
-        limits.max_iterations -= self.world.iterations;
+        limits.max_iterations = limits
+            .max_iterations
+            .checked_sub(self.world.iterations)
+            .ok_or(error::Token::RunLimit(error::RunLimit::TooManyIterations))?;
         if execution_time >= limits.max_time {
             return Err(error::Token::RunLimit(error::RunLimit::Timeout));
         }
@@ -361,7 +367,10 @@ impl Authorizer {
     pub fn authorize(&mut self) -> Result<usize, error::Token> {
         let execution_time = self.run()?;
         let mut limits = self.limits.clone();
-        limits.max_iterations -= self.world.iterations;
+        limits.max_iterations = limits
+            .max_iterations
+            .checked_sub(self.world.iterations)
+            .ok_or(error::Token::RunLimit(error::RunLimit::TooManyIterations))?;
         if execution_time >= limits.max_time {
             return Err(error::Token::RunLimit(error::RunLimit::Timeout));
         }
